@@ -264,8 +264,67 @@ def rule_envelope(ctx):
     ctx.ob("binary flag compared with the serializer's BINARY attribute", len(flag) == 1, "flag check changed", fn.loc())
 
 
+def rule_role_features(ctx):
+    """HELLO/WELCOME role features: every announced feature must be a bool (or absent)."""
+    from ..core.terms import TermEval, show
+    ctx.rule("C08.5-role-features-strict")
+    p = ctx.program
+    fn = p.func("autobahn.wamp.role.RoleFeatures._check_all_bool")
+    ctx.analysed(fn)
+    te = TermEval(p, fn, inline=lambda c, f: None).run()
+    raises = [o for o in te.outcomes if o.kind == "raise"]
+    ctx.require(len(raises) >= 1, "_check_all_bool: no raise found")
+
+    def conjuncts(t, pol=True):
+        if t[0] == "op" and t[1] == "and" and pol:
+            return conjuncts(t[2], True) + conjuncts(t[3], True)
+        if t[0] == "op" and t[1] == "or" and not pol:
+            return conjuncts(t[2], False) + conjuncts(t[3], False)
+        if t[0] == "un" and t[1] == "not":
+            return conjuncts(t[2], not pol)
+        return [(t, pol)]
+
+    def is_value(t):
+        # getattr(self, k) / self.__dict__[k] / the value of an items() pair
+        d = ("attr", ("p", "self"), "__dict__")
+        if t[0] == "call" and t[1] == ("g", "getattr") and t[2][0] == ("p", "self"):
+            return True
+        if t[0] == "idx" and t[1] == d:
+            return True
+        if t[0] == "idx" and t[2] == ("c", 1) and t[1][0] == "elem" and t[1][1][0] == "m" and t[1][1][1] == d and t[1][1][2] == "items":
+            return True
+        return t[0] == "elem" and t[1][0] == "m" and t[1][1] == d and t[1][2] == "values"
+    for o in raises:
+        cj = []
+        for c, pl in o.conds:
+            cj += conjuncts(c, pl)
+        value_conds = [(c, pl) for c, pl in cj if any(is_value(x) for x in _subterms(c))]
+        not_none = any(c[0] == "cmp" and ((c[1] == "is not" and pl) or (c[1] == "is" and not pl)) and ("c", None) in c[2:] and any(is_value(x) for x in c[2:]) for c, pl in value_conds)
+        not_bool = any(c[0] == "cmp" and ((c[1] in ("!=", "is not") and pl) or (c[1] in ("==", "is") and not pl)) and ("g", "bool") in c[2:] and
+                       any(x[0] == "call" and x[1] == ("g", "type") and is_value(x[2][0]) for x in c[2:]) for c, pl in value_conds)
+        ctx.ob("a role feature value is refused iff it is not None and its type is not bool", not_none and not_bool and len(value_conds) == 2,
+               f"refusal condition on the value is {[(show(c), pl) for c, pl in value_conds]}: a wrongly typed (e.g. falsy non-bool) feature value would be accepted "
+               f"into Hello/Welcome", fn.loc(o.node))
+        ctx.ob("the refusal is a ProtocolError", o.term[0] == "call" and o.term[1][0] == "g" and o.term[1][1].endswith("ProtocolError"), f"raises {show(o.term)[:60]}", fn.loc(o.node))
+    rf = p.cls("autobahn.wamp.role.RoleFeatures")
+    subs = [c for c in p.subclasses(rf) if "__init__" in c.methods]
+    ctx.require(len(subs) >= 6, f"only {len(subs)} role feature classes found")
+    for c in subs:
+        init = c.methods["__init__"]
+        body = [s for s in init.node.body if not (isinstance(s, ast.Expr) and isinstance(s.value, ast.Constant))]
+        last = body[-1] if body else None
+        ok = isinstance(last, ast.Expr) and isinstance(last.value, ast.Call) and norm.text(last.value.func) == "self._check_all_bool"
+        ctx.ob(f"{c.name}: all feature attributes are checked after they are stored", ok, "constructor does not end with self._check_all_bool()", init.loc())
+
+
+def _subterms(t):
+    from ..core.terms import subterms
+    return subterms(t)
+
+
 def run(ctx):
     rule_flow(ctx)
     rule_escape(ctx)
     rule_strictness(ctx)
     rule_envelope(ctx)
+    rule_role_features(ctx)
